@@ -189,7 +189,7 @@ def check_value(p, v, cfg_name, col):
             col.violation("union-fixpoint", hist_case(), f"T={mat.root_expr}: encode(decode(b)) = {bb!r:.100} != {b1!r:.100}", bucket="fixpoint")
 
 
-BYTES_WRAPS = ["plain", "newtype", "alias", "newtype>newtype", "alias>newtype", "newtype>alias", "alias>alias", "final"]
+BYTES_WRAPS = ["plain", "newtype", "alias", "newtype>newtype", "alias>newtype", "newtype>alias", "alias>alias", "final", "stralias"]
 
 
 def _wrapped_bytes_type(B, wrap):
@@ -200,6 +200,9 @@ def _wrapped_bytes_type(B, wrap):
         return T
     if wrap == "final":
         return typing.Final[B]
+    if wrap == "stralias":
+        # a string-valued alias: `Payload = TypeAliasType("Payload", "bytes")` (known finding K-STRBYTES)
+        return typing.TypeAliasType("PayloadS", B.__name__)
     for i, w in enumerate(wrap.split(">")):
         T = typing.NewType(f"Blob{i}", T) if w == "newtype" else typing.TypeAliasType(f"Payload{i}", T)
     return T
